@@ -48,6 +48,14 @@ Record case := CS {
 
 Definition lor_list (l : list N) : N := fold_left N.lor l 0%N.
 
+(* some non-zero coordinate of the batch or of a query lies below 2^-400 (binary32 data: 2^-36): squared
+   differences may then fall below the normal range of the format (underflow), the regime that the
+   float-level theorems exclude and in which finding F-C07-1 lives *)
+Definition tiny_case (c : case) : bool :=
+  let thr := if c_f32 c then 0x1p-36%float else 0x1p-400%float in
+  existsb (fun x => PrimFloat.ltb 0 (PrimFloat.abs x) && PrimFloat.ltb (PrimFloat.abs x) thr)
+          (concat (c_X c) ++ concat (map q_pt (c_queries c))).
+
 Section Gen.
 Context {F : Type} (o : NumOps F) (cv : float -> F) (beq : F -> F -> bool) (eps : F).
 
@@ -96,8 +104,20 @@ Definition status_valid (x : outcome) : N :=
 Definition status_malformed (x : outcome) : N :=
   match x with ROk _ _ => 64 | RErr => 0 | RPanic => 192 end%N.
 
+(* the float-level invariant of the search (C07/FloatSearch.v proves it for L2 in the standard rounding
+   model): at every node of the tree the computed bound is at or below the computed reduced distance
+   of every point stored below the node *)
+Fixpoint bound_ok_tree (m : metric) (q : list F) (t : btree F) : bool :=
+  let b := node_bound o eps m q t in
+  forallb (fun p => leb o b (rdist o m q (fst p))) (tree_points t)
+  && match t with
+     | BLeaf _ _ _ => true
+     | BBranch _ _ l r => bound_ok_tree m q l && bound_ok_tree m q r
+     end.
+
 Section OneQuery.
-Context (lp : bool) (m : metric) (X : list (list F)) (dim : nat) (tree : option (btree F)) (qr : query).
+(* [chk_bound]: evaluate the float-level invariant (the case lies outside the underflow regime) *)
+Context (lp : bool) (m : metric) (X : list (list F)) (dim : nat) (tree : option (btree F)) (chk_bound : bool) (qr : query).
 
 Let q : list F := map cv (q_pt qr).
 Let n := length X.
@@ -189,7 +209,9 @@ Definition corr_metric : N :=
            end) 64.
 
 Definition run_wellformed : N * N :=
-    (lor_list ((if lp then [] else corr_metric :: map corr_knn (q_knn qr) ++ map corr_rng (q_rng qr)
+    (lor_list ((if lp then [] else corr_metric
+                                     :: flag (negb chk_bound || match tree with Some t => bound_ok_tree m q t | None => true end) 1024
+                                     :: map corr_knn (q_knn qr) ++ map corr_rng (q_rng qr)
                                      ++ map kd_corr_knn (q_knn qr) ++ map kd_corr_rng (q_rng qr))
                ++ map kd_contract_knn (q_knn qr) ++ map kd_contract_rng (q_rng qr)),
      lor_list (map oracle_knn (q_knn qr) ++ map oracle_rng (q_rng qr))).
@@ -255,7 +277,7 @@ Definition run_gen (c : case) : verdict :=
         | _, _ => if existsb (fun s => match s with BOk => true | _ => false end) (skipn 2 (c_build c))
                   then 1%N else 0%N
         end in
-      let qs := map (run_query lp m X dim (if lp then None else tree)) (c_queries c) in
+      let qs := map (run_query lp m X dim (if lp then None else tree) (negb (tiny_case c))) (c_queries c) in
       (c_id c, (lor_list (bcorr :: tcorr :: map fst qs), lor_list (borac :: map snd qs)))
   end.
 End Gen.
